@@ -70,6 +70,13 @@ def run(chk: core.Check, tier: str, seed: int) -> None:
                     q = pos.format(c=f"{fn}({sh})")
                     recs.append(impl.rec_compile(jp, q, extra={"reg": probes.reg_records(HELPERS + [("gl2", ["L"], "L")])},
                                                  env=probes.make_env(jp, HELPERS + [("gl2", ["L"], "L")], [])))
+    # GEN: all texts over the "calls" unit family (built-in functions in every argument / operand position)
+    from .. import parserconf  # noqa: PLC0415
+    ugens, uruns = parserconf.unit_texts(tier, "c05_units", sets=["calls"])
+    for label, res in uruns:
+        chk.add_tlc(label, res)
+    recs += [impl.rec_compile(jp, core.dec_text(g["q"])) for g in ugens if g["why"] != "syntax"]
+    chk.notes["unit_texts_calls"] = sum(1 for g in ugens if g["why"] != "syntax")
     from .. import corpus  # noqa: PLC0415
     bl = [("bl", ["L"], "L")]
     bl_env = probes.make_env(jp, bl, [])
